@@ -54,6 +54,20 @@ pub struct PCase {
     /// total nanosecond counts as decimal strings
     pub nanos: Vec<String>,
     pub buf_len: usize,
+    /// alloc tier (API that exists with `alloc` and with `std`): TZ values resolved through settings over an in-memory file system
+    #[serde(default)]
+    pub ares: Vec<ARes>,
+    /// alloc tier: TZif files to decode
+    #[serde(default)]
+    pub afiles: Vec<Vec<u8>>,
+}
+
+#[derive(Debug, Clone, Default, serde::Serialize, serde::Deserialize)]
+pub struct ARes {
+    pub tz: String,
+    pub dirs: Vec<String>,
+    /// path -> contents; None = the file exists but cannot be read (typed I/O error)
+    pub files: Vec<(String, Option<Vec<u8>>)>,
 }
 
 struct Buf {
